@@ -146,6 +146,17 @@ CwdClauses(R, X) ==
 NestedClauses(B, A) == V(A = B, "NearestRootWins")
 
 (***************************************************************************)
+(* combine (C18): links = set of <<name, resolved target, isLink>> found in the combine task's output directory;  *)
+(* deps = set of <<name, directory, nonEmpty>>: the directories a sibling task with the same dependency list was   *)
+(* given in COND_DEPS in the same invocation                                                                     *)
+(***************************************************************************)
+CombineClauses(exit, links, deps, conflict, entryUnchanged) ==
+        V(conflict \/ exit # 0 \/ {<<l[1], l[2]>> : l \in links} = {<<d[1], d[2]>> : d \in {x \in deps : x[3] = 1}},
+          "CombineLinksExact")
+   \cup V(conflict \/ exit # 0 \/ \A l \in links : l[3] = 1, "CombineEntriesAreLinks")
+   \cup V(~conflict \/ (exit # 0 /\ entryUnchanged), "CombineConflictReported")
+
+(***************************************************************************)
 (* clean, where                                                            *)
 (***************************************************************************)
 CleanClauses(B, A) == V(OutsideUntouched(B, A), "OutsideUntouched")
